@@ -167,6 +167,7 @@ StepBoot ==
            allkeys == UNION {blocks[i].keys : i \in 1..n}
        IN /\ st' = log
           /\ g' = [g EXCEPT !.seen = @ \cup allkeys, !.nodeHas = @ \cup allkeys, !.chain = {blocks[i] : i \in 1..n},
+                            !.granted = IF "dead" \in DOMAIN st THEN Resync(@, log) ELSE @,
                             !.tower_id = IF @ = "" THEN Ev.tower_id ELSE @]
           /\ tags' = tags
                 \cup (IF Ev.abort = "" THEN Lift(C07_Copies(log)) ELSE {})
@@ -174,7 +175,7 @@ StepBoot ==
                 \cup (IF Ev.abort = "" /\ (log.gkH # Ev.tipH \/ log.wH # Ev.tipH) THEN T("C03", "boot.height") ELSE {})
                 \cup (IF Ev.abort = "" /\ (log.reorged # {} \/ log.memo # {}) THEN T("C03", "boot.volatile") ELSE {})
                 \cup (IF Ev.abort \notin {"", "crash"} THEN T("C03", "boot.abort:" \o Ev.abort) ELSE {})
-                \cup (IF \E r \in log.users : r.slots + SumCost({a \in log.appts : a.u = r.u}) > GrantedOf(g.granted, r.u)
+                \cup (IF "dead" \notin DOMAIN st /\ \E r \in log.users : r.slots + SumCost({a \in log.appts : a.u = r.u}) > GrantedOf(g.granted, r.u)
                       THEN T("C03", "boot.grants_slots") ELSE {})
                 \cup (IF "dead" \notin DOMAIN st /\ (st.users # log.users \/ st.appts # log.appts \/ st.trackers # log.trackers
                                                    \/ (st.lastKnown # log.lastKnown /\ st.lastKnown # 0))
@@ -425,6 +426,121 @@ StepDied ==
     /\ tags' = tags \cup T("C11", "process_died")
     /\ UNCHANGED <<st, g, alive>>
 
+-----------------------------------------------------------------------------
+(* C10 / C11: a scheduled concurrent run of 2-3 operations on real threads (harness/src/conc.rs).  The event carries *)
+(* every operation with its reply, the chain events the poll delivered, all node RPCs and the state afterwards.       *)
+(* Linearizable: some sequential order of the operations, executed by Tower.tla's action operators from the state     *)
+(* before, produces exactly these replies and this state.                                                             *)
+
+\* start / expiry of an add_appointment reply are read when the handler starts (atomics / early reads: DESIGN.md C10
+\* "Assumes"): they are compared leniently (any value current during the run), everything else exactly.
+ConcReplyOk(exp, got, lenient) ==
+    /\ exp.code = got.code
+    /\ (exp.code = "ok" /\ "slots" \in DOMAIN exp /\ "slots" \in DOMAIN got) => exp.slots = got.slots
+    /\ (~lenient /\ exp.code = "ok" /\ "start" \in DOMAIN exp /\ "start" \in DOMAIN got) => exp.start = got.start
+    /\ (~lenient /\ exp.code \in {"ok", "expired"} /\ "expiry" \in DOMAIN exp /\ "expiry" \in DOMAIN got) => exp.expiry = got.expiry
+    /\ (exp.code = "ok" /\ "status" \in DOMAIN exp) =>
+          /\ "status" \in DOMAIN got /\ exp.status = got.status
+          /\ (exp.status = "responded" => exp.d = got.d /\ exp.p = got.p)
+          /\ (exp.status = "watched" => exp.key = got.key /\ exp.pay = got.pay /\ exp.size = got.size /\ exp.tsd = got.tsd)
+
+\* The chain events a poll delivered, as the sequence of critical sections the code executes them in: one step per
+\* listener call (gatekeeper, watcher, responder) per block, then the end of the poll.  Requests served concurrently can
+\* be ordered anywhere between these steps.
+ChainSteps(ch) == [i \in 1..(3 * Len(ch)) |-> <<ch[((i - 1) \div 3) + 1][1], CASE (i - 1) % 3 = 0 -> "Gk" [] (i - 1) % 3 = 1 -> "W" [] OTHER -> "R",
+                                                 BlkOf(ch[((i - 1) \div 3) + 1][2])>>]
+
+ApplyChainStep(s, step, orc) ==
+    LET blk == step[3]
+    IN CASE step[1] = "disc" /\ step[2] = "Gk" -> GkDisconnectF(s, blk.h)
+         [] step[1] = "disc" /\ step[2] = "W" -> WDisconnectF(s, blk)
+         [] step[1] = "disc" /\ step[2] = "R" -> RDisconnectF(s, blk)
+         [] step[1] = "conn" /\ step[2] = "Gk" -> GkConnectF(s, blk.h)
+         [] step[1] = "conn" /\ step[2] = "W" -> WConnectF(s, blk, orc).st
+         [] OTHER -> RConnectF(s, blk, orc).st
+
+RECURSIVE ApplyChain(_, _, _, _)
+ApplyChain(s, ch, i, orc) ==
+    LET steps == ChainSteps(ch)
+    IN IF i > Len(steps) THEN s ELSE ApplyChain(ApplyChainStep(s, steps[i], orc), ch, i + 1, orc)
+
+ApplyApi(s, o, orc) ==
+    CASE o.op = "register" -> LET x == RegisterF(s, o.u) IN [st |-> x.st, ok |-> ConcReplyOk(x.reply, o.reply, FALSE)]
+      [] o.op = "add" -> LET a == [l |-> o.l, blob |-> [key |-> o.key, pay |-> o.pay, size |-> o.size], tsd |-> o.tsd, ver |-> o.ver]
+                             x == AddAppointmentF(s, o.who, a, orc)
+                             \* the stored start block is the one the reply states
+                             fix(t) == IF o.reply.code = "ok" /\ x.reply.code = "ok"
+                                       THEN {IF Key(r) = <<o.who, o.l>> /\ r.ver = o.ver THEN [r EXCEPT !.start = o.reply.start] ELSE r : r \in t} ELSE t
+                         IN [st |-> [x.st EXCEPT !.appts = fix(@)], ok |-> ConcReplyOk(x.reply, o.reply, TRUE) /\ x.abort = ""]
+      [] o.op = "get" -> [st |-> s, ok |-> ConcReplyOk(GetAppointmentF(s, o.who, o.l), o.reply, FALSE)]
+      [] OTHER -> [st |-> s, ok |-> FALSE]
+
+\* merged order: item k of the merged sequence is either chain step (k counts) or an API op; represented by a function
+\* pos : api ops -> 0..nsteps (the op runs after that many chain steps) and a permutation f breaking ties.
+RECURSIVE RunMerged(_, _, _, _, _, _, _, _)
+RunMerged(s, apis, f, pos, steps, done, i, orc) ==
+    \* done = number of chain steps applied; i = index into the permuted api list
+    IF i > Len(apis)
+    THEN [st |-> (LET RECURSIVE Rest(_, _)
+                      Rest(x, k) == IF k > Len(steps) THEN x ELSE Rest(ApplyChainStep(x, steps[k], orc), k + 1)
+                  IN Rest(s, done + 1)), ok |-> TRUE]
+    ELSE IF pos[f[i]] > done
+    THEN RunMerged(ApplyChainStep(s, steps[done + 1], orc), apis, f, pos, steps, done + 1, i, orc)
+    ELSE LET r == ApplyApi(s, apis[f[i]], orc)
+         IN IF ~r.ok THEN [st |-> s, ok |-> FALSE] ELSE RunMerged(r.st, apis, f, pos, steps, done, i + 1, orc)
+
+ConcStateOk(x, log) ==
+    /\ x.users = log.users /\ x.gk = log.gk /\ x.appts = log.appts
+    /\ ProjT(x.trackers) = ProjT(log.trackers)
+
+Linearizable(s, ops, orc, ch, tip, log) ==
+    LET apiIdx == {i \in 1..Len(ops) : ops[i].op # "poll"}
+        apis == [k \in 1..Cardinality(apiIdx) |-> ops[CHOOSE i \in apiIdx : Cardinality({j \in apiIdx : j < i}) = k - 1]]
+        polled == \E i \in 1..Len(ops) : ops[i].op = "poll"
+        steps == IF polled THEN ChainSteps(ch) ELSE <<>>
+        n == Len(apis)
+    IN \E f \in Permutations(1..n) : \E pos \in [1..n -> 0..Len(steps)] :
+          /\ \A i \in 1..(n - 1) : pos[f[i]] <= pos[f[i + 1]]
+          /\ LET r == RunMerged(s, apis, f, pos, steps, 0, 1, orc)
+                 fin == IF polled THEN (IF Len(ch) = 0 THEN PollCommonF(r.st) ELSE PollOkF(r.st, tip)) ELSE r.st
+             IN r.ok /\ ConcStateOk(fin, log)
+
+StepConc ==
+    /\ Ev.act = "Conc"
+    /\ LET orc == OrcOf(Ev.rpc)
+           \* caches and index after the chain events of the run (the same whatever the order)
+           after == ApplyChain(st, Ev.chain, 1, orc)
+           log == LogOr(Ev, after, after.wCache, after.rIndex)
+           blocked == Ev.deadlock \/ Ev.timeout
+           aborted == Len(Ev.aborts) > 0
+           regs(u) == Cardinality({i \in 1..Len(Ev.ops) : Ev.ops[i].op = "register" /\ Ev.ops[i].u = u /\ Ev.ops[i].reply.code = "ok"})
+           regUsers == {Ev.ops[i].u : i \in {j \in 1..Len(Ev.ops) : Ev.ops[j].op = "register"}}
+           grC == {x \in g.granted : x[1] \notin regUsers}
+                  \cup {<<u, (IF HasUser(st.users, u) THEN GrantedOf(g.granted, u) ELSE 0) + regs(u) * SUB_S>> : u \in regUsers}
+       IN /\ st' = log
+          /\ g' = [g EXCEPT !.granted = Resync({x \in grC : HasUser(log.users, x[1])}, log),
+                            !.seen = @ \cup UNION {ToSetOf(Ev.chain[i][2].keys) : i \in 1..Len(Ev.chain)},
+                            !.nodeHas = @ \cup {tx \in 0..MAXTX : orc[tx] \in {"ok", "mem", "res"}}
+                                          \cup UNION {ToSetOf(Ev.chain[i][2].keys) : i \in 1..Len(Ev.chain)},
+                            !.chain = LET conn == {BlkOf(Ev.chain[i][2]) : i \in {j \in 1..Len(Ev.chain) : Ev.chain[j][1] = "conn"}}
+                                          disc == {Ev.chain[i][2].h : i \in {j \in 1..Len(Ev.chain) : Ev.chain[j][1] = "disc"}}
+                                      IN {b \in @ : b.h \notin disc /\ \A c \in conn : c.h # b.h} \cup conn]
+          /\ tags' = tags
+                \cup (IF Ev.deadlock THEN T("C11", "deadlock") ELSE {})
+                \cup (IF Ev.timeout /\ ~Ev.deadlock THEN T("C11", "hung:conc") ELSE {})
+                \cup {<<l, "C11", "abort:" \o Ev.aborts[i][2]>> : i \in 1..Len(Ev.aborts)}
+                \cup (IF ~blocked /\ ~aborted /\ ~Linearizable(st, Ev.ops, orc, Ev.chain, Ev.tip, log) THEN T("C10", "not_linearizable") ELSE {})
+                \cup (IF ~blocked /\ ~aborted THEN ConservationTags(grC, log) \cup Lift(C07_Copies(log)) ELSE {})
+                \cup (IF ~blocked /\ ~NoDangling(log) THEN T("C10", "orphan_record") ELSE {})
+          /\ alive' = (alive /\ ~blocked /\ ~aborted)
+
+\* the rig went back to a checkpoint (database file and node state) to try another schedule
+StepRestore ==
+    /\ Ev.act = "Restore"
+    /\ st' = [dead |-> TRUE]
+    /\ alive' = FALSE
+    /\ UNCHANGED <<g, tags>>
+
 StepInit ==
     /\ Ev.act = "Init"
     /\ st' = [dead |-> TRUE]
@@ -441,7 +557,7 @@ Next ==
     /\ l <= Len(Rec)
     /\ l' = l + 1
     /\ \/ StepInit \/ StepBoot \/ StepRegister \/ StepAdd \/ StepGet \/ StepSub
-       \/ StepGkConnect \/ StepWConnect \/ StepRConnect \/ StepDisc \/ StepPollEnd \/ StepNote \/ StepRefFinal \/ StepFlag \/ StepHung \/ StepDied \/ StepEnd
+       \/ StepGkConnect \/ StepWConnect \/ StepRConnect \/ StepDisc \/ StepPollEnd \/ StepNote \/ StepRefFinal \/ StepFlag \/ StepHung \/ StepDied \/ StepConc \/ StepRestore \/ StepEnd
 
 Spec == Init /\ [][Next]_vars
 =============================================================================
